@@ -5,7 +5,7 @@
 (* harness/cmd/vtext records searches of the REAL engine (VSearch /        *)
 (* VSearchGraph with alpha = 0, alpha = 1 and text-only queries) as ndjson *)
 (* records                                                                 *)
-(*   mode  "alpha0" | "alpha1" | "textonly"                                *)
+(*   mode  "alpha0" | "alpha1" | "textonly" | "hybrid" (0 < alpha < 1)     *)
 (*   k     the k of the call                                               *)
 (*   res   the returned documents, in order (1-based indices into DocSeq)  *)
 (*   L     live (and allowed) documents,  C  candidates (and allowed) of   *)
@@ -16,9 +16,12 @@
 (*         harness evaluated from the specification's integers (ties       *)
 (*         share a rank; the pre-order is supplied by the log, TLC has no  *)
 (*         reals)                                                          *)
+(*   frk   fused rank (mode hybrid): dense rank of the late-fusion score   *)
+(*         the harness evaluated for the documents of the pool             *)
 (*   ok    the harness's own verdict (judge.go)                            *)
 (* Every record is judged here with the TLA+ predicates themselves         *)
-(* (FusionOK = TextOnlyOK / VectorOnlyOK / TextFirstOK); the verdicts must *)
+(* (FusionOK = TextOnlyOK / VectorOnlyOK / TextFirstOK / HybridOK); the    *)
+(* verdicts must                                                           *)
 (* coincide.                                                               *)
 (***************************************************************************)
 EXTENDS MC_TextIdx, IOUtils
@@ -34,6 +37,6 @@ TraceNext == /\ i < Len(TraceLog)
              /\ UNCHANGED vars
 TraceSpec == TraceInit /\ [][TraceNext]_tvars
 
-Verdict(r) == FusionOK(r.mode, r.res, RangeOf(r.L), RangeOf(r.C), r.vrk, r.trk, r.k)
+Verdict(r) == FusionOK(r.mode, r.res, RangeOf(r.L), RangeOf(r.C), r.vrk, r.trk, r.frk, r.k)
 Inv_Verdicts == i > 0 => (Verdict(TraceLog[i]) <=> TraceLog[i].ok)
 =============================================================================
